@@ -3,6 +3,7 @@
 Falls through to real numpy.  Object arrays that hold no symbolic scalar are demoted to float64 before a
 real numpy function sees them; functions that cannot work on symbolic elements get elementwise versions."""
 import math, numbers, types
+from fractions import Fraction
 import numpy as _np
 import z3
 from . import core
@@ -138,6 +139,8 @@ def _s_sin(v):
 
 
 def _s_abs(v):
+    if isinstance(v, SAngle):
+        return abs(v)
     if isinstance(v, SSqrt):
         return v
     if isinstance(v, SNum):
@@ -154,7 +157,7 @@ def _s_deg2rad(v):
 
 
 def _s_rad2deg(v):
-    if isinstance(v, SAngle):
+    if isinstance(v, (SAngle, SAcos)):
         return v.rad2deg()
     raise Unsupported("rad2deg of non-angle")
 
@@ -164,23 +167,54 @@ def _s_arccos(v):
 
 
 class SAcos(SNum):
-    """acos(arg) in radians as an uninterpreted value; keeps its argument so that oracles compare arguments."""
+    """k * acos(arg) (radians, or degrees when deg=True) with acos uninterpreted; keeps `arg` and `k` so that oracles
+    compare arguments.  Axioms per argument: range [0,pi]; acos(1)=0 (and only there); arg>=0 => acos<=pi/2."""
 
-    def __init__(self, arg, scale=None):
+    def __init__(self, arg, k=1, deg=False):
         self.arg = z3.simplify(arg)
+        self.k, self.deg = Fraction(k), deg
         f = core.ufun("acos", 1)
-        e = f(self.arg)
-        self.scale = scale
-        super().__init__(e if scale is None else e * scale)
+        a = f(self.arg)
         c = ctx()
+        pi = pi_const()
         key = self.arg.get_id()
-        done = c.__dict__.setdefault("_acos_done", set())
+        done = c.__dict__.setdefault("_acos_done", {})
         if key not in done:
-            done.add(key)
-            pi = pi_const()
-            c.assume(z3.And(f(self.arg) >= 0, f(self.arg) <= pi))
-            c.assume(z3.Implies(self.arg == 1, f(self.arg) == 0))
-            c.assume(z3.Implies(f(self.arg) == 0, self.arg == 1))
+            done[key] = self.arg
+            c.assume(z3.And(a >= 0, a <= pi))
+            c.assume(z3.Implies(self.arg == 1, a == 0))
+            c.assume(z3.Implies(a == 0, self.arg == 1))
+            c.assume(z3.Implies(self.arg >= 0, a * 2 <= pi))
+            c.assume(z3.Implies(self.arg <= 0, a * 2 >= pi))
+        if deg:
+            # value in degrees = k * acos * 180 / pi, introduced as a symbol d with d * pi = k * 180 * acos
+            d = z3.Real("acosdeg_%d_%s" % (self.arg.hash() & 0xffffffff, str(self.k).replace("/", "_")))
+            kk = z3.RealVal(str(self.k * 180))
+            if ("deg", key, self.k) not in done:
+                done[("deg", key, self.k)] = True
+                # bounds follow from the radian bounds: 0 <= d <= 180k ; d = 0 iff acos = 0; monotone pieces
+                c.assume(z3.And(d >= 0, d <= kk))
+                c.assume(z3.Implies(a == 0, d == 0))
+                c.assume(z3.Implies(d == 0, a == 0))
+                c.assume(z3.Implies(a * 2 <= pi, d * 2 <= kk))
+                c.assume(z3.Implies(a * 2 >= pi, d * 2 >= kk))
+            SNum.__init__(self, d)
+        else:
+            SNum.__init__(self, a * z3.RealVal(str(self.k)) if self.k != 1 else a)
+
+    def __mul__(self, o):
+        if isinstance(o, (int, float, _np.integer, _np.floating)) and not self.deg and float(o) > 0 and Fraction(float(o)).denominator <= 64:
+            return SAcos(self.arg, self.k * Fraction(float(o)), False)
+        return SNum.__mul__(self, o)
+
+    __rmul__ = __mul__
+
+    def rad2deg(self):
+        if self.deg:
+            raise Unsupported("degrees of degrees")
+        return SAcos(self.arg, self.k, True)
+
+    degrees = rad2deg
 
 
 def pi_const():
@@ -240,6 +274,22 @@ def _eye(n, *a, **k):
     return r.astype(object) if "dtype" not in k else r
 
 
+def _unit_or_sqrt(sq):
+    """norm of a vector whose squared length is provably 1 on this path (rotated unit vectors): the constant 1.0"""
+    if not is_sym(sq):
+        return float(sq) ** 0.5
+    e = z3.simplify(zreal(sq))
+    if z3.is_rational_value(e):
+        return SSqrt(e)
+    from . import solve
+    c = ctx()
+    rel, _ = solve.slice_for(c.pc_light() if c.__dict__.get("heavy") else c.pc(), [e])
+    r, _, _ = solve.check(rel + [e != 1], timeout=3.0)
+    if r == "unsat":
+        return 1.0
+    return SSqrt(e)
+
+
 class _Linalg:
     def __getattr__(self, name):
         return getattr(_np.linalg, name)
@@ -256,9 +306,9 @@ class _Linalg:
         if isinstance(s, _np.ndarray):
             out = _np.empty(s.shape, dtype=object)
             for idx in _np.ndindex(*s.shape):
-                out[idx] = SSqrt(zreal(s[idx]))
+                out[idx] = _unit_or_sqrt(s[idx])
             return out
-        return SSqrt(zreal(s))
+        return _unit_or_sqrt(s)
 
     @staticmethod
     def inv(a):
@@ -281,9 +331,37 @@ class _Linalg:
         raise Unsupported("linalg.inv on a symbolic matrix that is not a translation")
 
 
+class SRandUnit(SNum):
+    """a value of np.random.rand(): arbitrary real in [0,1); times 360 it is an arbitrary angle"""
+
+    def __init__(self):
+        c = ctx()
+        v = c.fresh_real("rand")
+        c.assume(z3.And(v >= 0, v < 1))
+        SNum.__init__(self, v)
+
+    def __mul__(self, o):
+        if isinstance(o, (int, float)) and float(o) == 360.0:
+            a = SAngle.fresh("rand%d" % next(ctx().fresh))
+            a.v = self.e * 360
+            return a
+        return SNum.__mul__(self, o)
+
+    __rmul__ = __mul__
+
+
 class _Random:
     def __getattr__(self, name):
         return getattr(_np.random, name)
+
+    @staticmethod
+    def rand(*shape):
+        if core.Ctx.cur is None:
+            return _np.random.rand(*shape)
+        out = _np.empty(shape, dtype=object)
+        for idx in _np.ndindex(*shape):
+            out[idx] = SRandUnit()
+        return out
 
 
 def _creation(name):
